@@ -15,7 +15,6 @@
 #include "options_gen.h"
 using namespace uncrustify;
 // value aliases of src/option_enum.h (generated file in the real build)
-static const line_end_e LE_LF = line_end_e::LF, LE_CRLF = line_end_e::CRLF, LE_CR = line_end_e::CR, LE_AUTO = line_end_e::AUTO;
 #define LE_COUNT(x)    cpd.le_counts[static_cast<size_t>(LE_ ## x)]
 extern "C" {
 // libc: isspace in the "C" locale (the set the C standard fixes for it)
